@@ -23,6 +23,9 @@ func init() {
 			"(R03.3) every attribute value written after `=` is the result of the one quoting routine html.EscapeAttrVal. The trait tables themselves are decided under C17. Not covered: whitespace significance per document, optional-tag inference in every parent context, `</script` inside script text.",
 		Run: runC03,
 	})
+	mutant(&Mutant{Name: "c03-checkbox-empty-value-dropped", Property: "C03", File: "html/html.go",
+		Old: "isOnOff := parse.EqualFold(t.AttrVal, radioBytes) || parse.EqualFold(t.AttrVal, checkboxBytes)", New: "isOnOff := parse.EqualFold(t.AttrVal, radioBytes)",
+		Rule: "R03.6", Construct: "input value removal"})
 	mutant(&Mutant{Name: "c03-attribute-pointers-taken-while-peeking", Property: "C03", File: "html/buffer.go",
 		Old: "\tfor i := z.pos; i < z.pos+n; i++ {\n\t\tattr := &z.buf[i]\n", New: "\tfor i := 0; i < n; i++ {\n\t\tattr := z.Peek(i)\n",
 		Rule: "R03.5", Construct: "token pointers are not kept"})
@@ -51,6 +54,7 @@ func init() {
 
 func runC03(c *Ctx) {
 	defer c.tokenBuffer("R03.5", "html")
+	defer c.r036()
 	pk := c.pkg("R03", "html")
 	if pk == nil {
 		return
